@@ -89,6 +89,17 @@ let handle kind c =
     if n = 0 then diff "stackpersist-empty" ~model:"some stack counters" ~impl:"none";
     if bad > 0 then
       prop "quiescent" (Printf.sprintf "%d of %d counters of stack counters with names near the length limit are not persisted (file open, all calls returned): %s" bad n (string_of_bytes detail))
+  | "regwindow" ->
+    (* the registration window: a whole Add that BEGINS after a rotation has
+       returned must not go through the mapping that rotation closed *)
+    let done_ = next_bool c in
+    let fb = next_int c in let fc = next_int c in let fd = next_int c in
+    if not done_ then prop "hang" "regwindow: a call did not return";
+    if fb + fc > 0 then prop "entered-through-closed-mapping" (Printf.sprintf "regwindow: %d accesses through a closed mapping before any mapping was superseded" (fb + fc));
+    check_eq "regwindow-faults" string_of_int (int_of_z regwin_faults) fd;
+    if fd > 0 then
+      prop "unmapped-while-registering"
+        (Printf.sprintf "a counter claimed by one goroutine's first Add (c.next set) but not yet linked into the file's list: another goroutine's Add cached its pointer, a rotation's invalidateCounters walk missed the counter and closed the mapping; an Add that began AFTER the rotation returned made %d accesses through the closed mapping (SIGSEGV in production)" fd)
   | "multi" ->
     (* several counters of one file object: Model/CounterMulti in lock step (one
        model step per scheduler step, every observation compared), plus the
